@@ -30,6 +30,31 @@ func init() {
 			}
 		}
 		o.def("simdWrappersPassLen", "Bool", lbool(ok), "the AVX/SSE wrappers pass len(a), &a[0], &b[0] and post-process as modelled")
+		// the implementations handed out by the dispatcher: AVX calls the AVX kernels only (they use
+		// unaligned loads); SSE (aligned loads) is guarded by an alignment test on both operands and
+		// falls back to the portable kernels
+		ai := parseFile("index/space/avx_impl.go")
+		avxOnly := true
+		for _, fn := range []string{"EuclideanDistance", "ManhattanDistance", "CosineDistance"} {
+			fd := funcDecl(ai, "avxSpaceImpl", fn)
+			if fd == nil || norm(fd.Body) != "{returnavx."+fn+"(a,b)}" {
+				avxOnly = false
+			}
+		}
+		o.def("avxImplCallsAvxKernelsOnly", "Bool", lbool(avxOnly), "avxSpaceImpl's three methods are exactly `return avx.<Kernel>(a, b)`")
+		si := parseFile("index/space/sse_impl.go")
+		guarded := true
+		for _, fn := range []string{"EuclideanDistance", "ManhattanDistance", "CosineDistance"} {
+			fd := funcDecl(si, "sseSpaceImpl", fn)
+			if fd == nil || norm(fd.Body) != "{if!sseLoadable(a,b){returnnativeSpaceImpl{}."+fn+"(a,b)}returnsse."+fn+"(a,b)}" {
+				guarded = false
+			}
+		}
+		if g := funcDecl(si, "", "sseLoadable"); g == nil ||
+			norm(g.Body) != "{iflen(a)<4{returntrue}return(uintptr(unsafe.Pointer(&a[0]))|uintptr(unsafe.Pointer(&b[0])))&15==0}" {
+			guarded = false
+		}
+		o.def("sseGuardedByAlignment", "Bool", lbool(guarded), "sseSpaceImpl calls an SSE kernel only if len < 4 or (addr(a) | addr(b)) & 15 == 0, else the portable kernel")
 		sp := parseFile("index/space/space.go")
 		fd := funcDecl(sp, "Cosine", "Distance")
 		o.def("cosineDistanceAbs", "Bool", lbool(fd != nil && norm(fd.Body) == "{returnmath.Abs(this.impl.CosineDistance(a,b))}"), "Cosine.Distance = Abs(kernel)")
